@@ -3083,18 +3083,27 @@ func (r *Run) foundIndex(ia *ssa.IndexAddr, use ssa.Instruction, asserted types.
 	if sc == nil {
 		return "", false
 	}
+	// a search of the standard library over the same byte slice: bytes.Index* return -1 or a
+	// position inside their first argument
+	libSearch := false
+	if sc.Pkg != nil && sc.Pkg.Pkg.Path() == "bytes" && (strings.HasPrefix(sc.Name(), "Index") || strings.HasPrefix(sc.Name(), "LastIndex")) &&
+		len(c.Call.Args) > 0 && c.Call.Args[0] == ia.X && asserted == nil {
+		libSearch = true
+	}
 	g := r.P.declared(sc)
-	if g == nil || !inModule(g) || g.Blocks == nil || len(g.Params) != len(c.Call.Args) {
-		return "", false
-	}
 	var list *ssa.Parameter
-	for k, a := range c.Call.Args {
-		if a == ia.X {
-			list = g.Params[k]
+	if !libSearch {
+		if g == nil || !inModule(g) || g.Blocks == nil || len(g.Params) != len(c.Call.Args) {
+			return "", false
 		}
-	}
-	if list == nil {
-		return "", false
+		for k, a := range c.Call.Args {
+			if a == ia.X {
+				list = g.Params[k]
+			}
+		}
+		if list == nil {
+			return "", false
+		}
 	}
 	// the use is on the non-negative side of a test of the result
 	guarded := false
@@ -3108,6 +3117,10 @@ func (r *Run) foundIndex(ia *ssa.IndexAddr, use ssa.Instruction, asserted types.
 		case bo.X == ssa.Value(c) && bo.Op == token.GEQ && isIntConst(bo.Y, 0), bo.X == ssa.Value(c) && bo.Op == token.GTR && isIntConst(bo.Y, -1):
 			side = 0
 		case bo.X == ssa.Value(c) && bo.Op == token.LSS && isIntConst(bo.Y, 0):
+			side = 1
+		case libSearch && bo.X == ssa.Value(c) && bo.Op == token.NEQ && isIntConst(bo.Y, -1):
+			side = 0
+		case libSearch && bo.X == ssa.Value(c) && bo.Op == token.EQL && isIntConst(bo.Y, -1):
 			side = 1
 		default:
 			continue
@@ -3125,6 +3138,10 @@ func (r *Run) foundIndex(ia *ssa.IndexAddr, use ssa.Instruction, asserted types.
 	}
 	if !guarded {
 		return "", false
+	}
+	if libSearch {
+		// nothing re-slices the list between the search and the use: the same SSA value is indexed
+		return "the index is the non-negative result of bytes." + sc.Name() + " over the same slice: -1 or a position inside it", true
 	}
 	if asserted != nil {
 		for _, ins := range allInstrs(use.Parent()) {
@@ -3550,6 +3567,50 @@ func dynComparableAt(v ssa.Value, b *ssa.BasicBlock) bool {
 	return true
 }
 
+// clampIsMin: phi merges `next` and `total` and takes total exactly when next exceeds it: the
+// block that supplies next ends in a comparison of the two whose "next is larger" side is the
+// block that supplies total (`hi := next; if hi > total { hi = total }`).
+func clampIsMin(phi *ssa.Phi, isNext, isTotal func(ssa.Value) bool) bool {
+	if len(phi.Edges) != 2 {
+		return false
+	}
+	b := phi.Block()
+	var pn, pt *ssa.BasicBlock
+	for i, ed := range phi.Edges {
+		switch {
+		case isTotal(ed):
+			pt = b.Preds[i]
+		case isNext(ed):
+			pn = b.Preds[i]
+		}
+	}
+	if pn == nil || pt == nil || len(pn.Instrs) == 0 {
+		return false
+	}
+	iff, ok := pn.Instrs[len(pn.Instrs)-1].(*ssa.If)
+	if !ok {
+		return false
+	}
+	bo, ok := iff.Cond.(*ssa.BinOp)
+	if !ok {
+		return false
+	}
+	var larger *ssa.BasicBlock // successor taken when next > total (or >=)
+	switch {
+	case (bo.Op == token.GTR || bo.Op == token.GEQ) && isNext(bo.X) && isTotal(bo.Y),
+		(bo.Op == token.LSS || bo.Op == token.LEQ) && isTotal(bo.X) && isNext(bo.Y):
+		larger = pn.Succs[0]
+	case (bo.Op == token.LEQ || bo.Op == token.LSS) && isNext(bo.X) && isTotal(bo.Y),
+		(bo.Op == token.GEQ || bo.Op == token.GTR) && isTotal(bo.X) && isNext(bo.Y):
+		larger = pn.Succs[1]
+	default:
+		return false
+	}
+	// `<` / `>` in the second group would leave next == total on the "larger" side only when the
+	// comparison is strict the other way round; either is fine: at equality both values agree
+	return larger == pt && len(pt.Preds) == 1
+}
+
 // chunkSliceProver: the slice `inputs[i*m : hi]` in the chunk body of MultiOpQueryer.Query (the
 // map closure of its AsyncMapReduce call, or the one function that closure hands its index to).
 // i is drawn from lo.Range(len(inputs)/m + 1), so i*m <= len(inputs); hi is absent or is
@@ -3740,16 +3801,87 @@ func (r *Run) chunkSliceProver(fn *ssa.Function, e ast.Expr) (string, bool) {
 	if sl.High == nil {
 		return "chunk arithmetic: the chunk index is drawn from lo.Range(len/m + 1), so index*m <= len of the sliced inputs", true
 	}
-	if phi, ok := sl.High.(*ssa.Phi); ok && len(phi.Edges) == 2 {
-		var e, l ssa.Value
-		for _, ed := range phi.Edges {
-			if lenOfX(ed) {
-				l = ed
-			} else if nextChunk(ed) {
-				e = ed
+	// both bounds from one helper of the module (`from, to := chunkBounds(i, m, n)`): read its
+	// results with the call's arguments in place of its parameters
+	if hx, ok := sl.High.(*ssa.Extract); ok {
+		lx, _ := sl.Low.(*ssa.Extract)
+		call, _ := hx.Tuple.(*ssa.Call)
+		if lx == nil || call == nil || lx.Tuple != hx.Tuple {
+			return "", false
+		}
+		sc := call.Call.StaticCallee()
+		if sc == nil || !inModule(sc) || sc.Blocks == nil || len(returnsOf(sc)) != 1 {
+			return "", false
+		}
+		rv := retVals(returnsOf(sc)[0])
+		if hx.Index >= len(rv) {
+			return "", false
+		}
+		argOf := func(x ssa.Value) ssa.Value {
+			for i, p := range sc.Params {
+				if ssa.Value(p) == x && i < len(call.Call.Args) {
+					return call.Call.Args[i]
+				}
+			}
+			return nil
+		}
+		// the total handed to the helper is the length of the list that is cut (taken in the
+		// enclosing function and captured, or taken here)
+		isTotal := func(x ssa.Value) bool {
+			a := argOf(x)
+			if a == nil {
+				return false
+			}
+			if lenOfX(a) {
+				return true
+			}
+			v := unwrap(a)
+			if ld, ok := v.(*ssa.UnOp); ok && ld.Op == token.MUL {
+				if fv, ok := ld.X.(*ssa.FreeVar); ok && fn.Parent() != nil {
+					for _, i3 := range allInstrs(fn.Parent()) {
+						if mc, ok := i3.(*ssa.MakeClosure); ok && mc.Fn == ssa.Value(fn) {
+							for k, fvk := range fn.FreeVars {
+								if fvk == fv && k < len(mc.Bindings) {
+									if al, ok := mc.Bindings[k].(*ssa.Alloc); ok {
+										if sts := storesTo(al); len(sts) == 1 {
+											if lc, ok := unwrap(sts[0].Val).(*ssa.Call); ok {
+												if b, ok := lc.Call.Value.(*ssa.Builtin); ok && b.Name() == "len" && types.Identical(lc.Call.Args[0].Type(), sl.X.Type()) {
+													if p, ok := viaCell(unwrap(lc.Call.Args[0])).(*ssa.Parameter); ok && p.Parent() == fn.Parent() {
+														return true
+													}
+												}
+											}
+										}
+									}
+								}
+							}
+						}
+					}
+				}
+			}
+			return false
+		}
+		isNext := func(x ssa.Value) bool {
+			bo, ok := x.(*ssa.BinOp)
+			if !ok || bo.Op != token.MUL {
+				return false
+			}
+			plus1 := func(y ssa.Value) bool {
+				a, ok := y.(*ssa.BinOp)
+				return ok && a.Op == token.ADD && ((argOf(a.X) == ssa.Value(idx) && isIntConst(a.Y, 1)) || (argOf(a.Y) == ssa.Value(idx) && isIntConst(a.X, 1)))
+			}
+			batch := func(y ssa.Value) bool { a := argOf(y); return a != nil && dependsOnField(a, "maxBatchSize") }
+			return (plus1(bo.X) && batch(bo.Y)) || (plus1(bo.Y) && batch(bo.X))
+		}
+		if phi, ok := unwrap(rv[hx.Index]).(*ssa.Phi); ok && len(phi.Edges) == 2 {
+			if clampIsMin(phi, isNext, isTotal) {
+				return "chunk arithmetic through " + fnName(sc) + ": low = index*m with index < len/m + 1, high = min((index+1)*m, len)", true
 			}
 		}
-		if e != nil && l != nil {
+		return "", false
+	}
+	if phi, ok := sl.High.(*ssa.Phi); ok && len(phi.Edges) == 2 {
+		if clampIsMin(phi, nextChunk, lenOfX) {
 			return "chunk arithmetic: low = index*m with index < len/m + 1, high = min((index+1)*m, len) written as a clamp", true
 		}
 	}
